@@ -388,7 +388,16 @@ func c19Kinds(c *Ctx, r *Result) {
 		got := ""
 		for _, in := range blk.Instrs {
 			if cv, ok := in.(*ssa.Convert); ok {
-				if _, isParam := cv.X.(*ssa.Parameter); isParam {
+				// the float64 argument: a parameter, or a parameter asserted to float64
+				src := cv.X
+				if e, isE := src.(*ssa.Extract); isE && e.Index == 0 {
+					if ta, isTA := e.Tuple.(*ssa.TypeAssert); isTA {
+						src = ta.X
+					}
+				} else if ta, isTA := src.(*ssa.TypeAssert); isTA {
+					src = ta.X
+				}
+				if _, isParam := src.(*ssa.Parameter); isParam && cv.X.Type().String() == "float64" {
 					got = cv.Type().String()
 				}
 			}
@@ -652,7 +661,35 @@ func c19TrailingError(c *Ctx, r *Result) {
 			continue
 		}
 		ord := newOrdinals()
+		// the delivery may sit in a helper that is handed the result slice
+		scanFn, scanVals := fn, vals
+		found := false
 		allInstrs(fn, func(in ssa.Instruction) {
+			if ta, ok := in.(*ssa.TypeAssert); ok && types.Identical(ta.AssertedType, errT) {
+				found = true
+			}
+		})
+		if !found {
+			allInstrs(fn, func(in ssa.Instruction) {
+				call, ok := in.(*ssa.Call)
+				if !ok {
+					return
+				}
+				h := call.Call.StaticCallee()
+				if h == nil || !c.modFuncSet[h] || c.PkgOf(h) != "stdlib" {
+					return
+				}
+				args := callArgs(call.Common())
+				for i, a := range args {
+					if unspill(a) == unspill(vals) && i < len(h.Params) {
+						scanFn, scanVals = h, h.Params[i]
+					}
+				}
+			})
+		}
+		key = c.FuncKey(scanFn)
+		vals = scanVals
+		allInstrs(scanFn, func(in ssa.Instruction) {
 			ta, ok := in.(*ssa.TypeAssert)
 			if !ok || !types.Identical(ta.AssertedType, errT) {
 				return
